@@ -5,7 +5,7 @@ import (
 	"sort"
 	"strings"
 
-	"golang.org/x/tools/go/ssa"
+	ssa "xvc/xssa"
 
 	"xvc/load"
 )
@@ -41,7 +41,33 @@ func MatchCond(pat, s string) bool {
 	if sw := swapEq(pat); sw != "" && Glob(sw, s) {
 		return true
 	}
+	if sw := swapSym(pat); sw != "" && Glob(sw, s) {
+		return true
+	}
 	return false
+}
+
+// swapSym: the operand-swapped spelling of a symmetric predicate call (bytes.Equal).
+func swapSym(pat string) string {
+	const pre = "bytes.Equal("
+	if !strings.HasPrefix(pat, pre) || !strings.HasSuffix(pat, ")") {
+		return ""
+	}
+	body := pat[len(pre) : len(pat)-1]
+	depth := 0
+	for i := 0; i < len(body); i++ {
+		switch body[i] {
+		case '(', '{', '[':
+			depth++
+		case ')', '}', ']':
+			depth--
+		case ',':
+			if depth == 0 {
+				return pre + body[i+1:] + "," + body[:i] + ")"
+			}
+		}
+	}
+	return ""
 }
 
 func swapEq(pat string) string {
